@@ -404,7 +404,86 @@ def _drive_sym(c):
     return {"p": pts}, 9
 
 
-_DRIVERS = {"sym": _drive_sym, "pair": _drive_pair, "triple": _drive_triple, "unary": _drive_unary,
+def _tree(t):
+    """A coefficient from its expression tree, built with pymbolic's constructors."""
+    from pymbolic.primitives import Product, Sum, Variable
+    k = t["k"]
+    if k == "num":
+        return _coef(t["q"])
+    if k == "var":
+        return Variable(t["nm"])
+    if k == "sum":
+        return Sum(tuple(_tree(ch) for ch in t["a"]))
+    if k == "prod":
+        return Product(tuple(_tree(ch) for ch in t["a"]))
+    raise ValueError(k)
+
+
+def _ser_tree(e):
+    """A stored coefficient object, node by node."""
+    from pymbolic.primitives import Product, Sum, Variable
+    if isinstance(e, Variable):
+        return {"k": "var", "q": [0, 1, 0], "nm": e.name, "a": []}
+    if isinstance(e, (Sum, Product)):
+        return {"k": "sum" if isinstance(e, Sum) else "prod", "q": [0, 1, 0], "nm": "",
+                "a": [_ser_tree(ch) for ch in e.children]}
+    q = _ser_coef(e)
+    if q == UNREP:
+        return {"k": "other", "q": [0, 1, 0], "nm": type(e).__name__, "a": []}
+    return {"k": "num", "q": q, "nm": "", "a": []}
+
+
+def _build_tree_recipe(rc, sp):
+    from pymbolic.geometric_algebra import MultiVector
+    via, ts = rc["via"], rc["ts"]
+    if via == "t":
+        return MultiVector({tuple(i - 1 for i in w): _tree(t) for w, t in ts}, sp)
+    if via == "b":
+        return MultiVector({_word_to_bits(w): _tree(t) for w, t in ts}, sp)
+    if via == "s":
+        return MultiVector(_tree(ts[0][1]), sp)
+    raise ValueError(via)
+
+
+def _b01(thunk):
+    try:
+        r = thunk()
+    except Exception:  # noqa: BLE001
+        return -2
+    if r is True or r is False:
+        return int(r)
+    try:
+        import numpy as np
+        if isinstance(r, np.bool_):
+            return int(bool(r))
+    except Exception:  # noqa: BLE001
+        pass
+    return -3
+
+
+def _drive_symeq(c):
+    """Two recipes with expression-tree coefficients, each built separately (also
+    when both recipes are the same: a twin, never the same object)."""
+    sp = _space(c["n"], c["g"])
+    a = _build_tree_recipe(c["ra"], sp)
+    b = _build_tree_recipe(c["rb"], sp)
+
+    def ser(m):
+        return {"t": "tmv", "mv": [[_bits_to_word(bits), _ser_tree(cf)]
+                                   for bits, cf in sorted(m.data.items(), key=lambda kv: int(kv[0]))]}
+    o = {
+        "da": ser(a), "db": ser(b),
+        "eq": _b01(lambda: a == b), "eqr": _b01(lambda: b == a),
+        "ne": _b01(lambda: a != b), "ner": _b01(lambda: b != a),
+        "eqa": _b01(lambda: a == a), "nea": _b01(lambda: a != a),  # noqa: PLR0124
+        "eqb": _b01(lambda: b == b), "neb": _b01(lambda: b != b),  # noqa: PLR0124
+        "he": _b01(lambda: hash(a) == hash(b)),
+        "ba": _b01(lambda: bool(a)), "bb": _b01(lambda: bool(b)),
+    }
+    return o, 13
+
+
+_DRIVERS = {"symeq": _drive_symeq, "sym": _drive_sym, "pair": _drive_pair, "triple": _drive_triple, "unary": _drive_unary,
             "bilin": _drive_bilin, "eq": _drive_eq, "prog": _drive_prog}
 
 
@@ -421,6 +500,19 @@ def _terms_grades(ts):
     return sorted({len(w) for w, _ in ts})
 
 
+def _tree_kinds(ts):
+    """Node kinds that occur in the coefficient trees of a term list."""
+    kinds = set()
+
+    def walk(t):
+        kinds.add(t["k"])
+        for ch in t["a"]:
+            walk(ch)
+    for _, t in ts:
+        walk(t)
+    return kinds
+
+
 def signature(case, verdict, fail):
     """Attribution pattern of one failing clause: the clause TLC named plus the
     coarsest structural feature of the input at the granularity of the property's
@@ -434,6 +526,8 @@ def signature(case, verdict, fail):
         sig["grades"] = [len(c["a"]), len(c["b"]), len(c["c"])]
     elif k == "unary":
         sig["grades"] = _terms_grades(c["a"])
+    elif k == "symeq":
+        sig["coefs"] = sorted(_tree_kinds(c["ra"]["ts"]) | _tree_kinds(c["rb"]["ts"]))
     elif k == "eq":
         sig["why"] = fail.get("w", "none")
         if sig["why"] == "none":
@@ -448,7 +542,7 @@ def _judge(recs, wd, out, tag):
         bykind.setdefault(r["c"]["k"], []).append(r)
     shards = []
     for k, rs in sorted(bykind.items()):
-        target = {"bilin": 1200, "prog": 3000, "unary": 4500, "eq": 8000, "sym": 2000}.get(k, 25000)
+        target = {"bilin": 1200, "prog": 3000, "unary": 4500, "eq": 8000, "sym": 2000, "symeq": 4000}.get(k, 25000)
         # balanced shards, in multiples of the 4 JVMs that judge concurrently
         nsh = -(-len(rs) // target)
         if nsh > 2:
@@ -489,9 +583,11 @@ def _nontrivial(c):
     return True
 
 
-BUGS = ["crs", "metric", "inner", "lc", "rev", "prune"]
+BUGS = ["crs", "metric", "inner", "inv", "eq", "lc", "rev", "prune"]
+QUICK_BUGS = BUGS[:5]
 # thorough tier: the exhaustive space is generated in slices (kind, number of slices)
-THOROUGH_SLICES = [("pair", 12), ("triple", 6), ("unary", 2), ("bilin", 1), ("eq", 1), ("sym", 1)]
+THOROUGH_SLICES = [("pair", 12), ("triple", 6), ("unary", 2), ("homog", 2), ("bilin", 1), ("eq", 1),
+                   ("sym", 1), ("symeq", 1)]
 
 
 def _cases_of(res):
@@ -568,10 +664,10 @@ def run(tier, seed, out):
     t0 = time.time()
     if tier == "quick":
         # stage 1 (three groups of TLC runs, overlapped), then one batch
-        with cf.ThreadPoolExecutor(max_workers=6) as ex:
+        with cf.ThreadPoolExecutor(max_workers=8) as ex:
             fgen = ex.submit(_gen, tier)
             fsim = [ex.submit(_sim, tier, seed, i, 400) for i in range(4)]
-            fbug = [ex.submit(_bug, b) for b in BUGS[:3]]
+            fbug = [ex.submit(_bug, b) for b in QUICK_BUGS]
             g = fgen.result()
             sims = [f.result() for f in fsim]
             out.extra["negative_controls_refuted_by_tlc"] = [f.result() for f in fbug]
@@ -582,7 +678,7 @@ def run(tier, seed, out):
             out.add_tlc(r)
             cases += _cases_of(r)
         kit.log(f"C18: TLC enumerated {nenum} cases ({g.distinct} states), simulated "
-                f"{len(cases) - nenum} random cases, refuted 3 negative controls "
+                f"{len(cases) - nenum} random cases, refuted {len(QUICK_BUGS)} negative controls "
                 f"({time.time() - t0:.1f}s)")
         if not nenum or len(cases) == nenum:
             raise kit.MachineryError("C18 generator printed no cases")
